@@ -105,15 +105,10 @@ BSignedOfR(r) == [s |-> IF r[1] > 0 THEN 1 ELSE IF r[1] < 0 THEN -1 ELSE 0,
 
 -----------------------------------------------------------------------------
 (* outlier filter on integers: doubled medians avoid fractions *)
-IKth(x, k) ==
-  LET n   == Len(x)
-      Vs  == {x[i] : i \in 1..n}
-      cnt == TLCEval([v \in Vs |-> Quantify(1..n, LAMBDA i : x[i] = v)])
-      leq(v) == ISum(LAMBDA u : IF u <= v THEN cnt[u] ELSE 0, Vs)
-  IN  CHOOSE v \in Vs : leq(v) - cnt[v] < k /\ k <= leq(v)
-IMedian2(x) == LET n == Len(x) IN
-               IF n % 2 = 1 THEN 2 * IKth(x, (n + 1) \div 2)
-               ELSE IKth(x, n \div 2) + IKth(x, n \div 2 + 1)
+\* (TLC's built-in SortSeq; Stats!KthR is the counting definition, compared on all small series by T_Outlier)
+IMedian2(x) == LET n == Len(x)
+                   s == SortSeq(x, <)
+               IN  IF n % 2 = 1 THEN 2 * s[(n + 1) \div 2] ELSE s[n \div 2] + s[n \div 2 + 1]
 \* x integer column, m = <<p, q>>:  d_i = d2_i / 2,  MAD = mad4 / 4
 IRowClass(x, m) ==
   LET med2 == IMedian2(x)
